@@ -243,7 +243,10 @@ def check(ctx):
     # ------------------------------------------------------------------ R3
     eb = repo.cls("liesel.goose.builder.EngineBuilder")
     init = method(repo, eb, "__init__")
-    ri = evaluate(repo, init)
+    from ..core.terms import make_inliner
+    ri = evaluate(repo, init, inline=make_inliner(
+        repo, self_class=eb, allow=lambda f: f.module.name == eb.module.name),
+        inline_depth=2)
     stores = {loc[2]: val for loc, val, _, _ in ri.stores if loc[0] == "a"
               and loc[1] == n("self")}
     keyfields = {f: v for f, v in stores.items() if v[0] == "s"}
@@ -266,6 +269,34 @@ def check(ctx):
     ctx.ob("C10.R3", init, "int seed: split(PRNGKey(seed), 3); key seed: split(seed, 3) "
                            "(same split, so int and key seeds are equivalent)", ok_eq,
            detail=short(root or ()), stmt="seed split " + pretty(root or ())[:200])
+
+    ses = method(repo, eb, "set_engine_seed")
+    rse = evaluate(repo, ses, inline=make_inliner(
+        repo, self_class=eb, allow=lambda f: f.module.name == eb.module.name), inline_depth=2)
+    st = [val for loc, val, _, _ in rse.stores if loc == ("a", n("self"), "_engine_key")]
+    seed_p = n(ses.params()[1])
+    ok_se = False
+    detail = ""
+    if st:
+        def nocast(t):
+            if not isinstance(t, tuple):
+                return t
+            if t and t[0] == "call" and (fn_name(t[1]) or "") == "typing.cast" and len(t[2]) == 2:
+                return nocast(t[2][1])
+            return tuple(nocast(x) for x in t)
+        vals = set()
+        for x in st:
+            x = nocast(x)
+            if x[0] == "phi":
+                vals.update({x[2], x[3]})
+            else:
+                vals.add(x)
+        want = {("call", ("g", "jax.random.PRNGKey"), (seed_p,), ()), seed_p}
+        ok_se = vals == want
+        detail = str(sorted(pretty(x)[:80] for x in vals))
+    ctx.ob("C10.R3", ses, "set_engine_seed: an int seed becomes PRNGKey(seed), a key is "
+                          "taken as is (so int and key are equivalent here too)", ok_se,
+           detail=detail, stmt="engine seed " + detail[:120])
 
     # ------------------------------------------------------------------ R4
     nfun = 0
